@@ -18,6 +18,7 @@ pub mod c11f;
 pub mod c12;
 pub mod c13;
 pub mod c14;
+pub mod c14r;
 pub mod c16;
 pub mod c17;
 pub mod c18;
